@@ -73,6 +73,7 @@ static uint64_t run_seed_of(uint64_t verif_seed, const char *scenario, uint64_t 
 }
 
 int g_leak_mode;      /* also scan captured output for secrets (C19) */
+extern void sim_ambient_entropy_seed(uint64_t);
 
 static void exec_plan(const Scenario *sc, const Plan *p, RunResult *r)
 {
@@ -172,14 +173,17 @@ int main(int argc, char **argv)
 		const Scenario *sc = scenario_find(target);
 		if (!sc) { fprintf(stderr, "unknown scenario %s\n", target); return 2; }
 		Plan p;
-		sc->gen(&p, run_seed_of(seed, sc->name, index), tier);
-		plan_print(stdout, &p);
-		return 0;
+		cap_init();
+		sim_ambient_entropy_seed(0xC0FFEE);
+		int K = sc->variants_per_base > 0 ? sc->variants_per_base : 1;
+		sc->gen(&p, run_seed_of(seed, sc->name, index / (uint64_t)K), index % (uint64_t)K, tier);
+		plan_print(g_out, &p);
+		fflush(g_out);
+		_exit(0);
 	}
 
 	cap_init();
 	sim_watchdog_start();
-	extern void sim_ambient_entropy_seed(uint64_t);
 	sim_ambient_entropy_seed(0xC0FFEE);
 
 	if (!strcmp(cmd, "run")) {
@@ -188,8 +192,9 @@ int main(int argc, char **argv)
 		static Plan p; static RunResult r, r2;
 		int nviol = 0;
 		for (uint64_t idx = from; idx < from + count; idx++) {
-			uint64_t rs = run_seed_of(seed, sc->name, idx);
-			sc->gen(&p, rs, tier);
+			int K = sc->variants_per_base > 0 ? sc->variants_per_base : 1;
+			uint64_t rs = run_seed_of(seed, sc->name, idx / (uint64_t)K);
+			sc->gen(&p, rs, idx % (uint64_t)K, tier);
 			fprintf(g_out, "BEGIN idx=%" PRIu64 " seed=%" PRIu64 "\n", idx, rs);
 			char ph[64]; snprintf(ph, sizeof(ph), "%s idx=%" PRIu64, sc->name, idx);
 			sim_set_phase(ph);
